@@ -226,3 +226,57 @@ def run_config(arg):
                 read_event(None)
             traces.append({"events": [F.norm_ev(e) for e in events]})
     return {"traces": traces, "fails": fails, "values": n, "config": [kind, pk, kw, dom]}
+
+
+def mounted_concurrent(arg):
+    """Several MountedStores written and read back by uberjob's worker threads at the same time, under the
+    deterministic scheduler with preemption at every line of the mounted-store code: every store must
+    return what was written to *it*."""
+    seed, nstores, stratspec = arg
+    import uberjob
+    from uberjob import stores as S
+    from uberjob._testing.test_mounted_file_store import TestMountedFileStore
+
+    from .. import detsched, engine_exec as E
+
+    rng = random.Random(seed)
+    strat = E.make_strategy(stratspec, rng)
+    files = detsched.ENGINE_FILES + ("uberjob/stores/_mounted_store.py", "uberjob/_testing/test_mounted_file_store.py", "uberjob/stores/_file_store.py")
+    sched = detsched.Scheduler(strat, preempt_files=files, opcode=False, step_budget=400000)
+    kinds = [S.JsonFileStore, S.PickleFileStore, S.TextFileStore, S.BinaryFileStore]
+    stores, values = [], []
+    for i in range(nstores):
+        cls = kinds[(seed + i) % len(kinds)]
+        stores.append(TestMountedFileStore(lambda lp, cls=cls: cls(lp)))
+        base = f"value-of-store-{i}-" + "z" * (50 * i)
+        values.append({"owner": i, "text": base} if cls is S.JsonFileStore else ("owner", i, base) if cls is S.PickleFileStore else base if cls is S.TextFileStore else base.encode())
+
+    def body():
+        plan = uberjob.Plan()
+        reg = uberjob.Registry()
+        outs = []
+        for i in range(nstores):
+            c = plan.call(lambda i=i: values[i])
+            reg.add(c, stores[i])
+            outs.append(c)
+        return uberjob.run(plan, registry=reg, output=outs, max_workers=nstores, progress=None, scheduler=rng.choice([None, "random"]))
+
+    out = sched.run(body)
+    res = {"fails": [], "preemptions": sched.preemptions}
+    if out["dead"]:
+        res["_poisoned"] = True
+    if out["outcome"] != "returned":
+        res["fails"].append({"what": "run_failed", "detail": (out["outcome"], repr(out["exc"])[:300])})
+        return res
+    for i in range(nstores):
+        if not strict_eq(out["value"][i], values[i]):
+            res["fails"].append({"what": "read_back_other_value", "detail": f"store {i} returned {out['value'][i]!r:.120}, wrote {values[i]!r:.120}"})
+        else:
+            try:
+                again = stores[i].read()
+            except Exception as ex:
+                res["fails"].append({"what": "read_failed", "detail": f"store {i}: {ex!r:.200}"})
+                continue
+            if not strict_eq(again, values[i]):
+                res["fails"].append({"what": "read_back_other_value", "detail": f"store {i} holds {again!r:.120}, wrote {values[i]!r:.120}"})
+    return res
